@@ -9,6 +9,7 @@ mod finding_f3;
 mod search;
 mod serde_find;
 mod decoder_find;
+mod opcost_find;
 mod treehash_find;
 mod unknown_find;
 mod varint_find;
